@@ -16,6 +16,7 @@ import (
 	"connectrpc.com/connect"
 	"golang.org/x/net/http2"
 	"golang.org/x/net/http2/h2c"
+	"google.golang.org/protobuf/encoding/protojson"
 	"google.golang.org/protobuf/proto"
 	"google.golang.org/protobuf/types/known/anypb"
 )
@@ -65,7 +66,7 @@ func (s *vfSizedServer) ServerStream(_ context.Context, req *connect.Request[con
 // TestVerifC19ClientSharp: the reference client accepts a response of exactly
 // its receive limit and reports one byte more as resource_exhausted.
 func TestVerifC19ClientSharp(t *testing.T) {
-	rep := verifkit.Begin("C19", "client-sharp", "real reference client with message_receive_limit L in {64, 4096, 204800, 1048576 (the runner's own client limit)} against a crafted connect-go server answering unary and server-stream responses of exactly L-1, L, L+1 serialized bytes x {Connect, gRPC, gRPC-Web} x 6 compressions x {all-zero, incompressible}; plus long server streams (17/24 responses of 1 MiB, 300 of 4 KiB, 90 of 200 KiB; last at L or L+1); oracle: <= L delivered, L+1 resource_exhausted, per message; distinct = (limit, protocol, compression, padding, delta, rpc)")
+	rep := verifkit.Begin("C19", "client-sharp", "real reference client with message_receive_limit L in {64, 4096, 204800, 1048576 (the runner's own client limit)} against a crafted connect-go server answering unary and server-stream responses of exactly L-1, L, L+1 serialized bytes x {Connect, gRPC, gRPC-Web} x 6 compressions x {all-zero, incompressible}; plus JSON-codec responses clearly below / above the limit (by 100 bytes, a fifth, three tenths); plus long server streams (17/24 responses of 1 MiB, 300 of 4 KiB, 90 of 200 KiB; last at L or L+1); oracle: <= L delivered, L+1 resource_exhausted, per message; distinct = (limit, protocol, compression, padding, delta, rpc)")
 	defer rep.Write()
 	mux := http.NewServeMux()
 	mux.Handle(conformancev1connect.NewConformanceServiceHandler(&vfSizedServer{},
@@ -170,6 +171,68 @@ func TestVerifC19ClientSharp(t *testing.T) {
 			}
 		}
 	}
+	// the JSON codec: the limit applies to the serialized (JSON) message just the same - no allowance for base64
+	for _, L := range []int{4096, 200 * 1024} {
+		for _, pr := range []conformancev1.Protocol{1, 2, 3} {
+			for _, target := range []struct {
+				what string
+				size int
+			}{{"below", L - 100}, {"above", L + 100}, {"above-by-a-fifth", L + L/5}, {"above-by-3-tenths", L + 3*L/10}} {
+				for _, rpc := range []string{"unary", "server-stream"} {
+					d := make([]byte, (target.size-40)*3/4)
+					for i := range d {
+						d[i] = byte(i * 7)
+					}
+					var jsonLen int
+					name := fmt.Sprintf("ClientSharp/json/%d/%v/%s/%s", L, pr, target.what, rpc)
+					req := &conformancev1.ClientCompatRequest{TestName: name, HttpVersion: conformancev1.HTTPVersion_HTTP_VERSION_2, Protocol: pr, Codec: conformancev1.Codec_CODEC_JSON, Compression: conformancev1.Compression_COMPRESSION_IDENTITY,
+						Host: host, Port: port, Service: proto.String("connectrpc.conformance.v1.ConformanceService"), MessageReceiveLimit: uint32(L),
+						RequestHeaders: []*conformancev1.Header{{Name: "x-test-case-name", Value: []string{name}}}}
+					if rpc == "unary" {
+						js, _ := protojson.Marshal(&conformancev1.UnaryResponse{Payload: &conformancev1.ConformancePayload{Data: d}})
+						jsonLen = len(js)
+						m, _ := anypb.New(&conformancev1.UnaryRequest{ResponseDefinition: &conformancev1.UnaryResponseDefinition{Response: &conformancev1.UnaryResponseDefinition_ResponseData{ResponseData: d}}})
+						req.StreamType, req.Method, req.RequestMessages = conformancev1.StreamType_STREAM_TYPE_UNARY, proto.String("Unary"), []*anypb.Any{m}
+					} else {
+						js, _ := protojson.Marshal(&conformancev1.ServerStreamResponse{Payload: &conformancev1.ConformancePayload{Data: d}})
+						jsonLen = len(js)
+						m, _ := anypb.New(&conformancev1.ServerStreamRequest{ResponseDefinition: &conformancev1.StreamResponseDefinition{ResponseData: [][]byte{[]byte("small first"), d}}})
+						req.StreamType, req.Method, req.RequestMessages = conformancev1.StreamType_STREAM_TYPE_SERVER_STREAM, proto.String("ServerStream"), []*anypb.Any{m}
+					}
+					if jsonLen > L-20 && jsonLen < L+20 {
+						continue // too close to call: the peer's JSON encoder may space its output differently by a few bytes
+					}
+					rep.Eval(1)
+					rep.DistinctKey(L, pr, target.what, rpc, "json")
+					w := map[string]any{"limit": L, "protocol": pr.String(), "codec": "json", "json_message_bytes(approx)": jsonLen, "rpc": rpc}
+					resp, err := cl.Do(req)
+					if err != nil {
+						rep.Inconcl(fmt.Sprintf("%s: %v", name, err))
+						continue
+					}
+					if resp.GetError() != nil {
+						rep.Violation("sharp/client/client-error", "reference client reported an internal error: "+resp.GetError().Message, w)
+						continue
+					}
+					res := resp.GetResponse()
+					verdict := "accepted"
+					if res.GetError() != nil {
+						verdict = connect.Code(res.GetError().Code).String()
+						w["error"] = verifkit.Trunc(res.GetError().GetMessage(), 200)
+					}
+					w["verdict"] = verdict
+					switch {
+					case jsonLen > L && verdict != "resource_exhausted":
+						rep.Violation("sharp/client/json/over-limit-"+verdict, fmt.Sprintf("JSON response of about %d bytes (limit %d): %s, want resource_exhausted", jsonLen, L, verdict), w)
+					case jsonLen <= L && verdict != "accepted":
+						rep.Violation("sharp/client/json/within-limit-"+verdict, fmt.Sprintf("JSON response of about %d bytes (limit %d): %s, want accepted", jsonLen, L, verdict), w)
+					default:
+						rep.Count("json_cases_ok:"+target.what, 1)
+					}
+				}
+			}
+		}
+	}
 	// the limit is per response message, not a budget for the response body: long server streams of responses that are
 	// each within the limit are delivered in full; with a last response one byte over, all but the last are delivered
 	for _, pr := range []conformancev1.Protocol{1, 2, 3} {
@@ -231,4 +294,6 @@ func TestVerifC19ClientSharp(t *testing.T) {
 	rep.RequireMin("over_limit_cases", 100)
 	rep.RequireMin("within_limit_accepted", 150)
 	rep.RequireMin("long_streams_ok", 9)
+	rep.RequireMin("json_cases_ok:above-by-a-fifth", 6)
+	rep.RequireMin("json_cases_ok:below", 6)
 }
